@@ -44,6 +44,7 @@ FromMaskImpl(a, m) == [first |-> A!And(a, m), last |-> A!Or(a, A!Not(m)), hosts 
 RangeImpl(s) == CASE s.k = "prefix" -> FromMaskImpl(s.a, MaskOfPrefix(s.b))
                   [] s.k = "mask"   -> FromMaskImpl(s.a, s.b)
                   [] s.k = "pair"   -> [first |-> s.a, last |-> s.b, hosts |-> FALSE]
+                  [] s.k = "pairhosts" -> [first |-> s.a, last |-> s.b, hosts |-> TRUE]
 
 ContainsImpl(r, x) == IF Variant = "contains_strict" THEN r.first < x /\ x < r.last
                       ELSE (r.first < x /\ x < r.last) \/ x = r.first \/ x = r.last
